@@ -129,6 +129,34 @@ func forEachCase(a shardArg, emit func(*Case)) {
 		}
 		return
 	}
+	if a.Fam == "arr3" {
+		rs := arr3Receivers(a.Quick, a.At)
+		for i := a.Lo; i < a.Hi && i < len(rs); i++ {
+			genArr3(a.M, rs[i], a.At, emit)
+		}
+		return
+	}
+	if a.Fam == "str3" {
+		rs := str3Receivers(a.Quick, a.At)
+		for i := a.Lo; i < a.Hi && i < len(rs); i++ {
+			genStr3(a.M, rs[i], a.At, a.Quick, emit)
+		}
+		return
+	}
+	if a.Fam == "strk" {
+		rs := strkReceivers(a.At)
+		for i := a.Lo; i < a.Hi && i < len(rs); i++ {
+			genStrK(a.M, rs[i], a.At, emit)
+		}
+		return
+	}
+	if a.Fam == "argn" {
+		rs := arrReceivers(a.M, a.Quick, a.At)
+		for i := a.Lo; i < a.Hi && i < len(rs); i++ {
+			genArgNull(a.M, rs[i], a.At, emit)
+		}
+		return
+	}
 	if a.Fam == "arrk" {
 		rs := kindReceivers(a.Quick, a.At)
 		for i := a.Lo; i < a.Hi && i < len(rs); i++ {
@@ -152,6 +180,7 @@ func forEachCase(a shardArg, emit func(*Case)) {
 func worker(w *pool.W, arg json.RawMessage) {
 	var a shardArg
 	json.Unmarshal(arg, &a)
+	preAtoms = a.At
 	out := shardRec{Cells: map[string]int64{}}
 	fails := map[string]*failRec{}
 	outcomes := map[string]bool{}
@@ -203,6 +232,9 @@ func worker(w *pool.W, arg json.RawMessage) {
 			fk := id + "\x01" + cl + "\x01" + o.PanicKey
 			if cl == "first-step" {
 				fk += "\x01" + c.Pre
+			}
+			if cl == "first-call" {
+				fk += "\x01" + c.M0
 			}
 			f := fails[fk]
 			sz := caseSize(c)
@@ -271,6 +303,7 @@ func main() {
 	c := ev.New("C15")
 	defer runner.Cleanup()
 	at := atomsFor(c.Seed)
+	preAtoms = at
 	if c.Replay != "" {
 		replay(c, at)
 		return
@@ -324,6 +357,18 @@ func main() {
 	for _, m := range arrMethods {
 		plan("arrk", m, len(kindReceivers(quick, at)))
 	}
+	for _, m := range arrMethods {
+		plan("arr3", m, len(arr3Receivers(quick, at)))
+	}
+	for _, m := range strMethods {
+		plan("str3", m, len(str3Receivers(quick, at)))
+	}
+	for _, m := range strkMethods {
+		plan("strk", m, len(strkReceivers(at)))
+	}
+	for _, m := range argnMethods {
+		plan("argn", m, len(arrReceivers(m, quick, at)))
+	}
 	for _, m := range nestRoutes {
 		plan("nest", m, len(nestReceivers(m, quick, at)))
 	}
@@ -364,12 +409,18 @@ func main() {
 		for i := range r.Fails {
 			f := r.Fails[i]
 			normCase(f.Case)
-			if f.Clause == "crash" || f.Clause == "first-step" {
+			if f.Clause == "crash" || f.Clause == "first-step" || f.Clause == "first-call" {
 				k := f.PanicKey
 				if f.Clause == "first-step" {
 					// the first call of a two-step case already went wrong: one key per first step,
 					// whatever the second method is
 					k = "after-prior-call:first-step(" + f.Case.Pre + ")"
+					if f.Case.M0 != "" {
+						// three-step case whose change step went wrong (whatever the earlier call was)
+						k = "after-call-and-change:change(" + f.Case.Pre + ")"
+					}
+				} else if f.Clause == "first-call" {
+					k = "after-call-and-change:earlier-call(" + f.Case.M0 + ")"
 				} else if k == "" {
 					k = "crash:" + f.Cell
 				}
@@ -405,6 +456,28 @@ func main() {
 		c.Fail("worker-death:"+runner.FatalFrame(d.Stderr), "no-crash", 0, map[string]any{"item": d.Item, "reason": d.Reason}, d.Stderr)
 	})
 
+	// a change step that already goes wrong in the two-step family is that family's finding; an earlier
+	// call that goes wrong on its own is the one-step family's
+	for k, f := range crashes {
+		if strings.HasPrefix(k, "after-call-and-change:earlier-call(") {
+			m0 := strings.TrimSuffix(strings.TrimPrefix(k, "after-call-and-change:earlier-call("), ")")
+			for id := range failing {
+				if fm, _ := splitCell(id); fm == "arr:"+m0 || fm == "str:"+m0 {
+					failing[id].n += f.N
+					delete(crashes, k)
+					break
+				}
+			}
+		}
+		if strings.HasPrefix(k, "after-call-and-change:change(") {
+			two := "after-prior-call:first-step(" + strings.TrimPrefix(k, "after-call-and-change:change(")
+			if t := crashes[two]; t != nil {
+				t.N += f.N
+				delete(crashes, k)
+			}
+		}
+	}
+
 	// ---- keys
 	fclause := map[string]string{}
 	for id, cf := range failing {
@@ -417,30 +490,101 @@ func main() {
 	}
 	// a two-step cell that fails exactly like its one-step counterpart is the same defect: fold it in,
 	// so that "after-prior-call." keys only name defects that need an already-changed receiver
-	for id, cf := range failing {
-		if !strings.HasPrefix(id, "arr2:") && !strings.HasPrefix(id, "arrk:") {
-			continue
-		}
-		twin := "arr:" + id[5:]
-		if fm, sh := splitCell(id); (fm == "arrk:indexOf" || fm == "arrk:includes") && len(sh) > 0 {
-			// the one-step family classes a needle as scalar / array only
-			sh = append([]string{}, sh...)
-			if sh[0] != "array" && sh[0] != "omitted" {
-				sh[0] = "scalar"
+	famOf := func(id string) string { return id[:strings.Index(id, ":")] }
+	for _, fam := range []string{"arr2", "arrk", "arr3", "str3", "argn", "strk"} {
+		for id, cf := range failing {
+			if famOf(id) != fam {
+				continue
 			}
-			twin = cellID2("arr:"+fm[5:], sh)
-		}
-		if tw := failing[twin]; tw != nil && fclause[twin] == fclause[id] {
-			tw.n += cf.n
-			cellCount[twin] += cellCount[id]
-			for fs := range cf.fine {
-				tw.fine[fs] = true
+			rest := id[len(fam)+1:]
+			twins := []string{"arr:" + rest}
+			switch fam {
+			case "arr3":
+				twins = append(twins, "arr2:"+rest)
+			case "str3":
+				twins = []string{"str:" + rest}
 			}
-			delete(failing, id)
-			delete(fclause, id)
+			if fm, sh := splitCell(id); (fm == "arrk:indexOf" || fm == "arrk:includes") && len(sh) > 0 {
+				// the one-step family classes a needle as scalar / array only
+				sh = append([]string{}, sh...)
+				if sh[0] != "array" && sh[0] != "omitted" {
+					sh[0] = "scalar"
+				}
+				twins = []string{cellID2("arr:"+fm[5:], sh)}
+			}
+			if fam == "argn" || fam == "strk" {
+				// the argument-kind classes have no one-step counterpart: try every class it could stand for
+				fm, sh := splitCell(id)
+				base := "arr:" + fm[5:]
+				if fam == "strk" {
+					base = "str:" + fm[5:]
+				}
+				cands := [][]string{{}}
+				for i, cls := range sh {
+					opts := []string{cls}
+					switch {
+					case fam == "argn" && cls == "null":
+						opts = []string{"omitted", "non-negative", "given"}
+					case fam == "strk" && i == 2 && fm == "strk:replace":
+						opts = []string{"given"}
+					case fam == "strk" && i > 0:
+						opts = []string{"nonempty", "empty"}
+					}
+					var next [][]string
+					for _, c0 := range cands {
+						for _, o := range opts {
+							next = append(next, append(append([]string{}, c0...), o))
+						}
+					}
+					cands = next
+				}
+				twins = nil
+				for _, c0 := range cands {
+					twins = append(twins, cellID2(base, c0))
+				}
+			}
+			for _, twin := range twins {
+				if tw := failing[twin]; tw != nil && fclause[twin] == fclause[id] {
+					tw.n += cf.n
+					cellCount[twin] += cellCount[id]
+					for fs := range cf.fine {
+						tw.fine[fs] = true
+					}
+					delete(failing, id)
+					delete(fclause, id)
+					break
+				}
+			}
 		}
 	}
 	keys := widen(all, fclause)
+	// three-step families: one key per method under test (whatever its argument shape); when most
+	// methods fail the cause is not in one method: one key for the family
+	for _, fam := range []string{"arr3", "str3"} {
+		ms := map[string]bool{}
+		for id := range failing {
+			if famOf(id) == fam {
+				fm, _ := splitCell(id)
+				ms[fm] = true
+			}
+		}
+		name := "after-call-and-change."
+		limit := 8
+		if fam == "str3" {
+			name, limit = "string.after-call-and-change.", 5
+		}
+		for id := range failing {
+			if famOf(id) != fam {
+				continue
+			}
+			fm, _ := splitCell(id)
+			if len(ms) >= limit {
+				keys[id] = name + "*"
+			} else {
+				keys[id] = name + fm[len(fam)+1:]
+			}
+		}
+	}
 	byKey := map[string]int64{}
 	fineByKey := map[string][]string{}
 	for id, cf := range failing {
@@ -492,6 +636,7 @@ func main() {
 	c.Assume("where docs/strings.md is silent (byte vs character positions, negative substring positions, start > end, empty search/separator, default split on repeated spaces, non-ASCII case mapping) each defensible answer is accepted; where a required argument is omitted only 'no Go panic' is demanded")
 	c.Assume("array elements are ints, one-letter strings and nested arrays; floats, numeric strings, null and bool as elements / needles / items only in the mixed-kinds family (lists of length <= 2, thorough 3); objects as elements, receivers longer than the tier bound and associative arrays are outside the bound")
 	c.Assume("indexOf / includes: a call conforms when it agrees with JavaScript === (one number type: 2.0 equals 2), PHP == or equality of the string forms (docs note 5); join / sort accept every string form of null, bool and nested arrays; PHP's === (2.0 not identical to 2) is not a reading the docs offer")
+	c.Assume("string methods given a non-string argument (docs/strings.md is silent): a call conforms when it behaves as if the argument were any text a defensible conversion gives - null: \"null\" (JavaScript String(null), today's behaviour) or \"\" (the language's own string form of null, PHP); bool: true/false or 1/empty; numbers: their decimal text; a null for an optional parameter may also act as omitted (argkinds.go nullTexts is the one place to tighten this)")
 	c.Assume("nested family: every case carries its own history call; a defect that shows only in a process that has never run the method before is outside the bound")
 	if len(outcomes) < 40 {
 		c.HarnessError("vacuous: only %d distinct (method, result type) outcomes", len(outcomes))
@@ -499,7 +644,7 @@ func main() {
 	if mutated == 0 {
 		c.HarnessError("vacuous: no case changed its receiver")
 	}
-	two := "; mixed-kinds family: every method x every list of length <= %d over {int, integral float, fractional float, numeric string, string, null, true, false, nested array} x needles of every kind / items and initial values of the new kinds; nested family: 9 callback-taking outer methods x 51 inner calls (every method, on the callback's element or on its array argument) x every history call of the same inner method x every outer receiver of length <= %d over 3 (thorough: element route 4) values, trace of (element, index, inner result), outer result, receiver and the kept earlier result compared; afterwards family: reduced receivers x array-returning / array-storing methods x every later write to result, receiver or array argument (own slot, push, through a nested element), all values required independent; two-step family: every list of length <= %d over 2 values (+3 nested receivers) x one first call of {push(1), push(2), pop, shift, unshift(1), splice(0,1), $r=$r->slice(0), reverse, sort} x every method x argument tuple with item pools of 2 (concat 3) values, model applies both steps"
+	two := "; mixed-kinds family: every method x every list of length <= %d over {int, integral float, fractional float, numeric string, string, null, true, false, nested array} x needles of every kind / items and initial values of the new kinds; nested family: 9 callback-taking outer methods x 51 inner calls (every method, on the callback's element or on its array argument) x every history call of the same inner method x every outer receiver of length <= %d over 3 (thorough: element route 4) values, trace of (element, index, inner result), outer result, receiver and the kept earlier result compared; three-step families: earlier call (same method canonical arguments -> every argument tuple; every other method -> canonical arguments) ; one change of the receiver (arrays: push, push 2, pop, shift, unshift, splice, slice-copy, reverse, sort; strings: .= ascii, .= multibyte, trim, replace) ; call, on array receivers of length <= 2 (+3) over 2 values and string receivers of length <= 2 (thorough: 3 / 3); argument kinds: int / float / null / bool / array for every text parameter of the string methods on 31 token receivers, explicit null for every optional parameter of the array methods; afterwards family: reduced receivers x array-returning / array-storing methods x every later write to result, receiver or array argument (own slot, push, through a nested element), all values required independent; two-step family: every list of length <= %d over 2 values (+3 nested receivers) x one first call of {push(1), push(2), pop, shift, unshift(1), splice(0,1), $r=$r->slice(0), reverse, sort} x every method x argument tuple with item pools of 2 (concat 3) values, model applies both steps"
 	bound := "array receivers: all lists of length <= 3 over 4 values (+ sort / flat pools); string receivers: all strings of length <= 3 over 4 characters" + fmt.Sprintf(two, 2, 3, 3)
 	if !quick {
 		bound = "array receivers: all lists of length <= 4 over 4 values and length 5 over 3 values (+ sort / flat pools); string receivers: all strings of length <= 5 over 4 characters" + fmt.Sprintf(two, 3, 4, 4)
@@ -544,6 +689,9 @@ func normCase(c *Case) {
 	}
 	for i := range c.Args {
 		c.Args[i].V = norm(c.Args[i].V)
+	}
+	for i := range c.Args0 {
+		c.Args0[i].V = norm(c.Args0[i].V)
 	}
 }
 
